@@ -201,6 +201,30 @@ def r18_4(prog, rep):
             rep.check(found[kind], "R18.4", f.qualname, f.loc, f"names from {kind} are filtered by `not name.startswith('_')` on the emitted name", f"names from {kind} are emitted without the public-name filter: private attributes leak into (field, value) pairs", detail=kind)
 
 
+def r18_7(prog, rep):
+    """Source precedence: `__slots__` (own class only) and vars() are fallbacks, used only when the declared fields /
+    type hints (which follow the inheritance chain) gave nothing."""
+    f = prog.function(f"{C.SERDES}._make_fields_iterator")
+    ok = True
+    seen_slots = False
+    for p in P.paths_of(prog, f):
+        last = None
+        for i, e in enumerate(p.events):
+            if e[0] == "assign" and e[2][0] == "comp" and e[2][3]:
+                k = _source_kind(e[2][3][0][0])
+                if k:
+                    last = (k, i, e[1])
+        if last and last[0] == "__slots__":
+            seen_slots = True
+            primary_empty = False
+            for g, pol in p.guards(last[1]):
+                if (not pol) and g[0] == "comp" and g[3] and _source_kind(g[3][0][0]) in ("type hints", "dataclass fields"):
+                    primary_empty = True
+            if not primary_empty:
+                ok = False
+    rep.check(ok and seen_slots, "R18.7", f.qualname, f.loc, "__slots__ is consulted only when declared fields / type hints yielded no public name", "__slots__ of the class is preferred over its type hints: slots list only the most-derived class's own names, so inherited public fields disappear from the pairs", detail="slots-fallback")
+
+
 def r18_5(prog, rep):
     iv = prog.function(f"{C.SERDES}.itervalues")
     val = ("param", iv.params[0])
@@ -256,9 +280,11 @@ def run(prog: Program, rep: Report, tier: str):
     rep.rule("R18.4", "public-name filter on every attribute source", floor=4)
     rep.rule("R18.5", "itervalues projects the same strategy; strategy order and arms", floor=5)
     rep.rule("R18.6", "no mutation of the argument", floor=5)
+    rep.rule("R18.7", "attribute-source precedence: hints/fields before __slots__", floor=1)
     r18_1(prog, rep)
     r18_2(prog, rep)
     r18_3(prog, rep)
     r18_4(prog, rep)
     r18_5(prog, rep)
     r18_6(prog, rep)
+    r18_7(prog, rep)
